@@ -52,7 +52,7 @@ def trace_cfg(cfg: Dict[str, Any], proxy: int = 0) -> Dict[str, Any]:
 
 def _event(kind: str, n: int, **kw) -> Dict[str, Any]:
     d = {"ev": kind, "accepted": False, "order": [], "vals": [[] for _ in range(n)], "qual": [[] for _ in range(n)],
-         "lar": [False] * n, "cur": [0] * n, "tot": [0] * n, "envr": 0, "exc": ""}
+         "lar": [False] * n, "post": [False] * n, "once": [False] * n, "cur": [0] * n, "tot": [0] * n, "envr": 0, "exc": ""}
     d.update(kw)
     return d
 
@@ -61,6 +61,7 @@ class RewardRecorder:
     def __init__(self):
         self.calls: Dict[int, Dict[str, Any]] = {}
         self.type_of: Dict[type, str] = {}
+        self.states: List[Any] = []  # (state dict, step counter when it was taken), most recent last
         self.installed = False
 
     # -- installation: wrap calculate of every registered component class
@@ -78,6 +79,14 @@ class RewardRecorder:
             c["n"] += 1
             c["ret"], c["exc"], c["state"], c["lar"] = ret, exc, state, lar
 
+        from primaite.game.game import PrimaiteGame
+
+        def after_state(game, tok, ret, exc):
+            if exc is None:
+                rec.states.append((ret, game.step_counter))
+                del rec.states[:-4]
+
+        tracer.wrap(PrimaiteGame, "get_sim_state", after=after_state)
         self.type_of = {cls: name for name, cls in AbstractReward._registry.items()}
         seen = set()
         for cls in AbstractReward._registry.values():
@@ -118,7 +127,7 @@ class RewardRecorder:
     def step(self, tr: Dict[str, Any], game, env_reward: Optional[float] = None):
         """Called after a completed game step: read everything from the objects."""
         n = tr["cfg"]["n"]
-        vals, qual, lar_ok, cur, tot = [], [], [], [], []
+        vals, qual, lar_ok, post_ok, once_ok, cur, tot = [], [], [], [], [], [], []
         try:
             for ai, (name, agent) in enumerate(game.agents.items()):
                 ccfg = tr["cfg"]["comps"][ai]
@@ -126,25 +135,36 @@ class RewardRecorder:
                 if len(comps) != len(ccfg):
                     raise RuntimeError("harness: component list of the object differs from the scenario's")
                 last = agent.history[-1] if agent.history else None
-                v_a, q_a, ok = [], [], True
+                # "that agent's own latest action": the item the agent logged for the step just taken
+                v_a, q_a, ok = [], [], last is not None and last.timestep == game.step_counter - 1
+                post = once = True
                 for (comp, _w), cc in zip(comps, ccfg):
                     if self.type_of.get(type(comp)) != cc["typ"]:
                         raise RuntimeError("harness: component type mismatch")
                     c = self.calls.get(id(comp))
                     if c is None or c["n"] != 1 or c["exc"] is not None:
-                        raise RuntimeError(f"harness: calculate of {name}/{cc['typ']} called {c['n'] if c else 0} times in one step")
+                        # not evaluated (or several times) in this step: something the implementation did
+                        once = False
+                        if c is None:
+                            v_a.append(0)
+                            q_a.append(False)
+                            continue
                     v_a.append(milli(c["ret"]))
                     ok = ok and (c["lar"] is last)
+                    # "post-step state": a state taken from the simulation after this step's tick
+                    post = post and any(c["state"] is st and cnt == game.step_counter for st, cnt in self.states)
                     q_a.append(self._qualifying(comp, cc, c["state"], last))
                 vals.append(v_a)
                 qual.append(q_a)
                 lar_ok.append(bool(ok))
+                post_ok.append(bool(post))
+                once_ok.append(bool(once))
                 cur.append(milli(agent.reward_function.current_reward))
                 tot.append(milli(agent.reward_function.total_reward))
             envr = milli(env_reward) if env_reward is not None else 0
         finally:
             self.calls = {}
-        tr["ev"].append(_event("Step", n, vals=vals, qual=qual, lar=lar_ok, cur=cur, tot=tot, envr=envr))
+        tr["ev"].append(_event("Step", n, vals=vals, qual=qual, lar=lar_ok, post=post_ok, once=once_ok, cur=cur, tot=tot, envr=envr))
 
     @staticmethod
     def _qualifying(comp, cc, state, last) -> bool:
